@@ -14,7 +14,8 @@ CLAIMED = {
               'CODEC-MIRROR: for every symbol kind (literal / matched literal, match x 3 slot classes, short rep, rep0-3, end '
               'marker, first byte, 3 length classes) encoder and decoder use the same probability tables with the same index roles, '
               'the same polarity on every decision bit, the same state update and the same rep-distance rotation (21 cases). '
-              'CTRL-SETS + FLAG-MODEL + READER-STATE: LZMA2 chunk protocol for all 256 control values and all reachable flag states.',
+              'CTRL-SETS + FLAG-MODEL + READER-STATE: LZMA2 chunk protocol for all 256 control values and all reachable flag states. '
+              'WINDOW-ALIGN: decoder window a multiple of 16.',
               'match finder/window invariants (matches only inside the retained window), look-ahead bookkeeping, optimal-parser '
               'indices, range-coder carry and flush length, 31-bit renormalisation, arithmetic offsets of symbols (len - 2, slot '
               'bases): all depend on run-time values.'),
@@ -31,7 +32,8 @@ CLAIMED = {
               'UNPADDED-ORDER: the index unpadded size = counter - snapshot + check and the snapshot precedes every sink write of '
               'the block; FLAG-MODEL: first chunk / every chunk after a pending reset carries the dictionary reset, no '
               'control byte outside the reader-accepted classes; SPEC-CONST: format constants equal the published specs (26 rows); '
-              'TABLE-INVERSE.',
+              'TABLE-INVERSE; WINDOW-ALIGN: every decoder window size is provably a multiple of 16 (bit-level zero analysis '
+              'through the rounding helpers), as liblzma\'s is.',
               'acceptance by the reference implementation of everything else (needs the reference); SPEC-CONST compares the '
               'format constants (magics, filter/check ids and sizes, LZMA2 limits, props formula) with the published specs.'),
     'C04': _c('static: error-propagation taint over Err edges (container readers)',
